@@ -6,6 +6,10 @@ V = os.path.dirname(os.path.dirname(os.path.abspath(__file__)))
 MC = "model_checking"
 CHECKS = {
  # id: (category, technique, text, note, design_ref)
+ "C01": (MC, "exhaustive enumeration of field values, dates, residue counts, feature tables, streams, registry histories, and BFS over edit programs from every seed, through the real GenBank writer and scanner (write-read-compare-write invariant on every state)",
+         "Every string of <=3 symbols over {a,space,.,;,:,\",\\,newline} in each of 22 fields (writable-domain predicate per field), long wrapping values, lists of 0..3 items, 0..2 references with every sub-field subset, 5 molecules x 2 topologies, every calendar date 1900-2100 (quick) / a dense sweep of 1-9999 (thorough), every residue count 0..130, tables of 0..3 features over a location menu x 9 qualifier shapes (quoted, literal, toggle, multi-line, multi-valued, mixed, long, empty, none), the corpus, every stream of 1..3 records, every program of <=2 (quick) / <=3 (thorough) edit operations from 7 seeds explored breadth-first and de-duplicated on the canonical record, every history of <=3 qualifier-registry events. Invariant on every record: gts reads its own output without error, the canonical dump of all listed fields is equal, write(read(write(x))) == write(x) byte for byte, and records in a stream read as they do alone.",
+         "Writable domain: values the flat-file grammar cannot represent (blank in locus name, '; ' inside a list item, line breaks in single-line fields, lines longer than the wrap width in SOURCE/ORGANISM, a double quote inside a quoted value) are excluded and counted; a quoted value ending in a backslash is a known finding.",
+         "DESIGN.md §5 C01"),
  "C02": (MC, "exhaustive enumeration of (location, i, n, op) over the constructor-normal clean domain through the real Insert/Embed; denotation oracle + Locate conformance",
          "Every location of the clean constructor-normal domain over L<=5 (quick, up to 3 parts for L<=4) / L<=6 (thorough, 3 parts for L<=5) x every insertion index x guest lengths 0..3 x {Insert, Embed} is executed on the real API; the result's residues, feature identity/qualifiers, and the denotation (ordered stranded atoms with partial markers) of every location are compared with the list-level reference model; every result is additionally replayed through the implementation's own Region().Locate(). Finite space, fully enumerated: a coverage statement inside the bound.",
          "Small-scope bound on L and parts; clean domain (disjoint parts, no site inside a multi-part location, markers on outer ends); reference model refmodel.Den; a site exactly at i may land on either side of the guest.",
